@@ -666,6 +666,9 @@ class StmtMixin:
             for k in heap_keys:
                 if k in h.heap:
                     h.heap[k] = z3.Const(V.fresh_name("Hl_" + "_".join(str(x) for x in (k if isinstance(k, tuple) else (k,)))), h.heap[k].sort())
+                    ax = self.heap_array_wf(k, h.heap[k])
+                    if ax is not None:
+                        h.assume(ax)
             for name in names:
                 if name in h.env and not name.startswith("$decl:"):
                     old = h.env[name]
